@@ -289,11 +289,18 @@ CriteriaExpect(f, args) ==
 (***************************************************************************)
 (* the argument as a rational, through the coercions the statement names:  *)
 (* numbers, numeric text, logicals.  [k |-> "q", q] | "text" | "unspec"    *)
+(* text that certainly spells no number: empty or blank, or containing a     *)
+(* character that no spelling of a number uses (digits, sign, point,        *)
+(* exponent letter, underscore, white space).  Malformed strings over that  *)
+(* alphabet ("1e", "--1", "2020-01-01") stay unspecified.                   *)
+NumberAlphabet == (48..57) \cup {43, 45, 46, 101, 69, 95, 32, 9, 10, 13}
+SurelyNotNumeric(s) == \/ \A i \in 1..Len(s) : s[i] \in {32, 9, 10, 13}
+                       \/ \E i \in 1..Len(s) : s[i] \notin NumberAlphabet
 MathArg(v) ==
   CASE v.t = "num" -> [k |-> "q", q |-> QOf(v)]
     [] v.t = "bool" -> [k |-> "q", q |-> QI(IF v.b THEN 1 ELSE 0)]
     [] v.t = "txt" -> IF NumericText(v.s).ok THEN [k |-> "q", q |-> NumericText(v.s).q]
-                      ELSE IF TextIsPlain(v.s) THEN [k |-> "text"] ELSE [k |-> "unspec"]
+                      ELSE IF TextIsPlain(v.s) \/ SurelyNotNumeric(v.s) THEN [k |-> "text"] ELSE [k |-> "unspec"]
     [] OTHER -> [k |-> "unspec"]
 
 QPos(x) == x.n > 0
